@@ -86,12 +86,12 @@ def evalRl (st : DState) (name : String) (t : List String) (impl : String) : Eva
   let store (v : RL) (r : RlRef) (regime : String) : Eval :=
     let st1 := (st.note regime).note (s!"rl.blocks.{if v.blocks ≤ 1 then "1" else if v.blocks ≤ 8 then "le8" else "gt8"}")
     { st := { st1 with rls := st1.rls.insert name ⟨v, r.len, r.runs⟩ }, model := s!"ok {rWords ((rlC m).ser v)}", spec := some "ok *" }
-  let fromBits (B : List Bool) (regime : String) : Eval :=
+  let fromSet (n : Nat) (P : List Nat) (regime : String) : Eval :=
     -- copy_bit_vec: set_bit_unchecked for every one, then set_len
-    let r := (onesPos B).foldl (fun r i => r.addRun i 1) ({} : RlRef)
-    let r := { r with len := B.length }
-    let b := (onesPos B).foldl (fun (b : Outcome RLBuilder) i => b.bind fun b => b.setRunUnchecked m i 1) (.ok {})
-    match b.bind (fun b => b.setLen m B.length) |>.bind (RL.ofBuilder m) with
+    let r := P.foldl (fun r i => r.addRun i 1) ({} : RlRef)
+    let r := { r with len := n }
+    let b := P.foldl (fun (b : Outcome RLBuilder) i => b.bind fun b => b.setRunUnchecked m i 1) (.ok {})
+    match b.bind (fun b => b.setLen m n) |>.bind (RL.ofBuilder m) with
     | .ok v => store v r regime
     | .fault e => { st := st, model := renderFault e, spec := some "ok *" }
   match t with
@@ -168,8 +168,8 @@ def evalRl (st : DState) (name : String) (t : List String) (impl : String) : Eva
     { st := st.note "rlb.history", model := " ".intercalate mo, spec := some (" ".intercalate so) }
   | [op, src] =>
     if op == "copy_of" || op == "from" then
-      match refBits st src with
-      | some B => fromBits B "rl.copy"
+      match refSet st src with
+      | some (n, P) => fromSet n P "rl.copy"
       | none => { st := st, model := "panic:no-object" }
     else evalRlQ st name t m
   | _ => evalRlQ st name t m
